@@ -379,8 +379,40 @@ class Engine:
         self.writes += 1
 
     # ---------------- obligations
+    # ---------------- known findings (recorded genuine defects): the obligation is checked as  cond OR region
+    def _kf_regions(self, kind, label, leaf=None):
+        import fnmatch
+        out = []
+        for k in getattr(self, 'known', None) or ():
+            if not fnmatch.fnmatchcase(kind, k.get('kind', '*')) or not fnmatch.fnmatchcase(label, k.get('label', '*')):
+                continue
+            if leaf is not None and k.get('leaves') and leaf not in k['leaves']:
+                continue
+            if leaf is None and k.get('leaves'):
+                continue
+            out.append(self._kf_eval(k))
+        return out
+
+    def _kf_eval(self, k):
+        from . import sym as S
+        I = {}
+        for nm, var in self.inputs.items():
+            if z3.is_bool(var):
+                I[nm] = SymBool(var)
+            else:
+                I[nm] = SymInt(z3.ZeroExt(1, var), 0, (1 << var.size()) - 1)
+        env = {'I': I, 'land': S.land, 'lor': S.lor, 'lnot': S.lnot, 'ite': S.ite, 'sel': S.sel, 'eq': S.eq,
+               'bits': lambda x, hi, lo: (x >> lo) & ((1 << (hi - lo + 1)) - 1), 'bit': lambda x, i: (x >> i) & 1}
+        for nm, v in I.items():
+            if nm.isidentifier():
+                env[nm] = v
+        return zb(eval(k['region'], env))
+
     def oblige(self, kind, label, cond, detail=''):
         """Prove pc => cond now; record result."""
+        regs = self._kf_regions(kind, label)
+        if regs:
+            cond = z3.Or(zb(cond), *regs)
         ob = Obligation(kind, label)
         ob.detail = detail
         ob.decisions = list(self.prefix[:self.pos])
@@ -418,7 +450,11 @@ class Engine:
         """conjunction of named conditions; on failure the detail lists the conjuncts false in the model"""
         conds = []
         for n, c in named:
-            c = z3.simplify(zb(c))
+            c = zb(c)
+            regs = self._kf_regions(kind, label, leaf=n)
+            if regs:
+                c = z3.Or(c, *regs)
+            c = z3.simplify(c)
             if not z3.is_true(c):
                 conds.append((n, c))
         ob = self.oblige(kind, label, z3.And(*[c for _, c in conds]) if conds else z3.BoolVal(True), detail)
